@@ -44,10 +44,19 @@ def extra_C15(res, tier, seed, cov):
                 printed[reg[0]].append((enc, s))
         # build the re-parse history
         k = 0
+        eregs = []
         for enc, s in printed["e"]:
             a = h.newe(); h.ops.append("%s=enc@0 %s" % (a, enc))
             b = h.newe(); h.ops.append("%s=str@0 %s" % (b, hexs(s)))
             h.ops.append("eq %s %s" % (a, b))
+            eregs.append((a, s))
+        if desc[0] in "BE" and len(eregs) >= 2:
+            # elements of binary and extension fields are sums of terms: the joined text of two printed elements (and
+            # of an element with itself: repeated terms) parses to their sum
+            for (a1, s1), (a2, s2) in [(eregs[0], eregs[1]), (eregs[0], eregs[0]), (eregs[-1], eregs[0])]:
+                c = h.newe(); h.ops.append("%s=str@0 %s" % (c, hexs(s1 + " + " + s2)))
+                d = h.newe(); h.ops.append("%s=plus %s %s" % (d, a1, a2))
+                h.ops.append("eq %s %s" % (c, d))
         for kind, ctor, names in (("p", "coefs", [uvar]), ("q", "map", list(bnames))):
             new = h.newu if kind == "p" else h.newb
             items = printed[kind]
